@@ -191,6 +191,18 @@ def faults(m):
         out.append(('Portfolio.transact_asset(earlier dt, other zone)',
                     lambda port=port, t=ahead: port.transact_asset(Transaction('A', 1, t, 10.0, 'bad', commission=0.5)),
                     ValueError, True))
+        # earlier instants of a round kind: midnight of the clock's own day (a date-only timestamp), the top of its hour,
+        # and the day before - "earlier" is a comparison of instants, whatever the fields look like
+        for label, t_e in (('midnight of the clock day', pclock.normalize()), ('top of the clock hour', pclock.floor('h')),
+                           ('midnight of the day before', pclock.normalize() - pd.Timedelta(days=1))):
+            if t_e < pclock:
+                out.append(('Portfolio.subscribe_funds(earlier dt: %s)' % label,
+                            lambda port=port, t=t_e: port.subscribe_funds(t, 10.0), ValueError, True))
+                out.append(('Portfolio.withdraw_funds(earlier dt: %s)' % label,
+                            lambda port=port, t=t_e: port.withdraw_funds(t, 0.01), ValueError, True))
+                out.append(('Portfolio.transact_asset(earlier dt: %s)' % label,
+                            lambda port=port, t=t_e: port.transact_asset(Transaction('A', 1, t, 10.0, 'bad', commission=0.5)),
+                            ValueError, True))
         out.append(('Portfolio.subscribe_funds(earlier dt)',
                     lambda port=port, t=earlier: port.subscribe_funds(t, 10.0), ValueError, True))
         out.append(('Portfolio.withdraw_funds(earlier dt)',
